@@ -111,6 +111,12 @@ func registerIntrinsics(e *Engine) {
 		st.PoolReuse = args[0].(*smt.Term).IsTrue()
 		return nil, true
 	}
+	// ConcreteClock(true): time.Now/Since/UnixNano return fixed increasing values instead of
+	// symbolic ones (for harnesses whose property does not depend on the clock).
+	I[nd+"ConcreteClock"] = func(e *Engine, st *State, th *Thread, args []Value, call *ssa.CallCommon) (Value, bool) {
+		st.ConcreteClock = args[0].(*smt.Term).IsTrue()
+		return nil, true
+	}
 	I[nd+"Symbolic"] = func(e *Engine, st *State, th *Thread, args []Value, call *ssa.CallCommon) (Value, bool) {
 		return e.C.True, true
 	}
